@@ -32,7 +32,7 @@ type c13Plan struct {
 	SendAfter   bool   `json:"send_after,omitempty"`
 	FlushFull   bool   `json:"flush_full,omitempty"` // the cancelled send is the flush of a message that exactly filled its packets
 	// close
-	Logout string `json:"logout,omitempty"` // answer | late | never
+	Logout string `json:"logout,omitempty"` // answer | late | never | partial
 	// ConcurrentClose (closed-calls): two goroutines call Close on the channel at the same time.
 	ConcurrentClose bool `json:"concurrent_close,omitempty"`
 	// DeadPeer (conn-close): the peer has closed its side long before and nobody received: the reader has queued
@@ -96,7 +96,7 @@ func (c13) Gen(r *Rand, idx int, tier string) interface{} {
 	p.CancelAfter = r.Intn(12)
 	p.Consumer = Pick(r, []string{"next", "until", "until-nil", "until-err"})
 	p.SendAfter = r.Pct(50)
-	p.Logout = Pick(r, []string{"answer", "answer", "late", "never"})
+	p.Logout = Pick(r, []string{"answer", "answer", "late", "never", "partial"})
 	p.LateMs = Pick(r, []int{10, 1000, 59000, 61000})
 	p.DoubleClose = r.Pct(40)
 	p.ConcurrentClose = p.Kind == "closed-calls" && r.Pct(40)
@@ -239,6 +239,10 @@ func (c13) Run(plan interface{}, schedSeed uint64, replay []simrt.Choice, lenien
 			case "late":
 				s.Fault("logout-answered-late")
 				pr.Conn.DeliverAfter(time.Duration(p.LateMs)*time.Millisecond, done[0])
+			case "partial":
+				// the header and half of the body, then nothing: the reader sits inside the packet
+				s.Fault("logout-answered-in-part")
+				pr.Conn.Deliver(done[0][:12])
 			default:
 				s.Fault("logout-never-answered")
 			}
